@@ -42,7 +42,16 @@ def c12(ctx):
     ctx.gotest("refserver", "^TestVerifC12", race=False, timeout=1800)
 
 
+def c09(ctx):
+    ctx.gotest("internal", "^TestVerifC09", race=True, timeout=1800)
+
+
 SPECS = {
+    "C09": {"fn": c09, "level": "fault_enumeration",
+            "technique": "runtime monitoring under the race detector: scripted hostile reader (partition plans, every truncation offset, oversize prefixes, stall points) feeding the real ReadDelimitedMessage / StreamDecoders; oracle = framing model",
+            "text": "For each sampled message sequence every truncation offset of the byte stream is injected under seven partition plans (with data+EOF and (0,nil) reads), through the runner's ReadDelimitedMessage and both StreamDecoder variants; oversize prefixes must be rejected with <1MB allocated and only the prefix consumed; stall points must yield a timeout no earlier than configured that reports the exact progress. Fault enumeration is exhaustive over offsets per sequence; sequences are sampled.",
+            "note": "protoDecoder has no configurable limit, so the before-allocating clause is checked on ReadDelimitedMessage only; stall upper bound is a watchdog (inconclusive), the lower bound and the progress text are verdicts.",
+            "assumptions": ["time.After cannot fire early"]},
     "C12": {"fn": c12, "level": "exploration",
             "technique": "runtime monitoring: the real referenceServerChecks middleware and real reference servers (HTTP/1.1, h2c, TLS, mTLS) observed under the full expected x actual matrix and a timeout-grammar model (regular expression + big-integer conversion)",
             "text": "Every realisable actual request shape is sent against every expected tuple (466k handler calls, exhaustive) and the feedback lines are compared with the set of differing aspects; timeout strings are enumerated exhaustively at the length/unit boundaries and sampled beyond, compared with a grammar + exact-conversion model; wire runs repeat the aspect check through real listeners with a plain HTTP client.",
